@@ -597,7 +597,9 @@ def _initialize_components(n_components, input, y=None, init='auto',
         print('Finding most discriminative components... ')
         sys.stdout.flush()
       lda.fit(input, y)
-      transformation = lda.scalings_.T[:n_components]
+      # (a contiguous copy: a strided view is re-laid out by pickle, which
+      # changes later matrix products in the last bit)
+      transformation = np.ascontiguousarray(lda.scalings_.T[:n_components])
     if verbose:
       print('done in {:5.2f}s'.format(time.time() - init_time))
     return transformation
